@@ -25,6 +25,7 @@ pub mod c15check;
 pub mod c10check;
 pub mod c04check;
 pub mod c03check;
+pub mod c07check;
 
 use common::{Failure, ReplayFile, Tier, case_from};
 
@@ -36,6 +37,7 @@ pub fn dispatch(prop: &str, tier: Tier, seed: u64) -> i32 {
         "C04" => c04check::check_c04(tier, seed),
         "C05" => memchecks::check_c05(tier, seed),
         "C06" => fetchcheck::check_c06(tier, seed),
+        "C07" => c07check::check_c07(tier, seed),
         "C10" => c10check::check_c10(tier, seed),
         "C11" => fetchcheck::check_c11(tier, seed),
         "C12" => c12check::check_c12(tier, seed),
@@ -68,6 +70,8 @@ pub fn replay(rf: &ReplayFile) -> anyhow::Result<Option<Failure>> {
         ("C10", _) => c10check::exec_c10(&case_from(rf)?).failure,
         ("C04", _) => c04check::exec_c04(&case_from(rf)?).failure,
         ("C03", _) => c03check::exec_c03(&case_from(rf)?).failure,
+        ("C07", "splitter") => c07check::exec_split(&case_from(rf)?).failure,
+        ("C07", _) => c07check::exec_e2e(&case_from(rf)?).failure,
         ("C14", _) => evcheck::exec_c14(&case_from(rf)?).failure,
         ("C05" | "C13" | "C18", _) => memchecks::replay_mem(&rf.property, case_from(rf)?),
         (p, s) => anyhow::bail!("no replay handler for {p}/{s}"),
